@@ -397,6 +397,15 @@ class Sim:
                 return dict(op=k, s=s, tag=rng.choice([0, 1, 2]),
                             idx=rng.sample(range(n), cnt))
             if k == 'add_property':
+                if rng.random() < 0.12:
+                    # change the default of a built-in property (e.g. what
+                    # ParticleArray(default_particle_tag=Remote) does): clones,
+                    # extensions and additions must then carry that default
+                    name = rng.choice(['tag', 'tag', 'pid', 'gid'])
+                    ty = pa.properties[name].get_c_type()
+                    dflt = rng.choice([0, 1, 2]) if name == 'tag' else rng.randint(1, 30)
+                    return dict(op=k, s=s, name=name, type=ty, default=dflt,
+                                data=None, stride=1)
                 if absent and rng.random() < 0.8:
                     name, ty, st = rng.choice(absent)
                     if rng.random() < 0.2:
@@ -728,6 +737,19 @@ def run_sequence(seed, length, R, tier, record_ops=None, ops_in=None, validate=F
                 failed = True
         if failed:
             break
+        # a clone (empty_clone / extract without destination / pickle) carries the
+        # source's schema: C type, stride and default of every cloned property
+        if op['op'] in ('empty_clone', 'extract', 'pickle'):
+            ssch = schema(before[op['s']])
+            asch = schema(after)
+            names = op.get('props') if op.get('props') is not None else list(ssch)
+            bad = [(n, ssch[n], asch.get(n)) for n in names if asch.get(n) != ssch[n]]
+            if bad:
+                R.prop_fail('C06:clone-schema:%s' % op['op'], case,
+                            'the clone has the C type, stride and default of the source for %s' % bad[0][0],
+                            'source %r, clone %r' % (bad[0][1], bad[0][2]))
+                failed = True
+                break
         exp, why = expected_bag(op, before, schema(after))
         if exp is None:
             R.count('oracle-skip:' + why)
@@ -909,6 +931,15 @@ def shrink(seed, ops, key):
 
 
 CORPUS = [
+    # a clone keeps the source's default tag / pid / gid defaults
+    [dict(op='new', s=0, name='f'), dict(op='new', s=1, name='g'),
+     dict(op='add_property', s=0, name='tag', type='int', default=1, data=None, stride=1),
+     dict(op='add_property', s=0, name='pid', type='int', default=7, data=None, stride=1),
+     dict(op='add_particles', s=0, align=1, given={'gid': [1, 2, 3, 4]}),
+     dict(op='extract', s=0, to=2, idx=[1, 3], align=1, props=None),
+     dict(op='extend', s=2, k=2),
+     dict(op='empty_clone', s=0, to=3, props=None),
+     dict(op='extend', s=3, k=1)],
     # re-declaring a strided property without stride= must keep its stride
     [dict(op='new', s=0, name='f'), dict(op='new', s=1, name='g'),
      dict(op='add_property', s=0, name='A', type='double', default=None, data=None, stride=3),
